@@ -419,23 +419,30 @@ pub fn bfs(ctx: &mut Ctx, u: &[T], depth: usize, family: &str, twin: bool, state
 }
 
 /// Level-1 pairs through the public query iterator: `|x, y, z| { u == v }`.
-fn query_level(ctx: &mut Ctx, u: &[T]) -> u64 {
+fn query_level(ctx: &mut Ctx, u: &[T], shared: bool) -> u64 {
     let n = u.len();
+    let family = if shared { "c01-shared" } else { "c01-query" };
     let cases: Vec<usize> = match &ctx.replay {
-        Some(r) if r.family == "c01-query" => vec![r.index],
+        Some(r) if r.family == family => vec![r.index],
         Some(_) => vec![],
         None => (0..n * n).collect(),
     };
     let res: Vec<Option<Violation>> = par_map(&cases, |_, a| {
-        crate::ev::progress("c01-query", *a, &serde_json::Value::Null);
+        crate::ev::progress(family, *a, &serde_json::Value::Null);
         let (i, j) = (a / n, a % n);
-        let p = Program { nq: NV as u32, body: vec![G::Eq(u[i].clone(), u[j].clone())] };
+        // shared: `botho(_, u, v)` — the relation unifies its ONE first argument (an anonymous
+        // variable written at the call) with u and then v with it, so u and v must unify
+        let p = if shared {
+            Program { nq: NV as u32, body: vec![G::Call("botho".into(), vec![T::W, u[i].clone(), u[j].clone()])] }
+        } else {
+            Program { nq: NV as u32, body: vec![G::Eq(u[i].clone(), u[j].clone())] }
+        };
         let out = run_query(NV, &p, 5, 100_000);
         let mut m = Subst::new();
         let exp = m.unify(&u[i], &u[j]);
         let sig = format!("{}", p);
         let mk = |kind: &str, detail: String, site: String| {
-            Some(Violation { kind: kind.into(), sig: sig.clone(), site, detail, family: "c01-query".into(), index: *a, schedule: vec![], data: serde_json::Value::Null })
+            Some(Violation { kind: kind.into(), sig: sig.clone(), site, detail, family: family.into(), index: *a, schedule: vec![], data: serde_json::Value::Null })
         };
         match (&out.end, exp) {
             (End::Panic(msg), _) => mk("panic", msg.clone(), panic_site(msg)),
@@ -477,7 +484,7 @@ pub fn run(ctx: &mut Ctx) {
     ctx.set("depth", json!(depth));
     let cap = usize::MAX;
     let stats = bfs(ctx, &u, depth, "c01-e1", false, cap);
-    let q = query_level(ctx, &u);
+    let q = query_level(ctx, &u, false) + query_level(ctx, &u, true);
     ctx.set("states", json!(stats.states));
     ctx.set("transitions", json!(stats.transitions + q));
     ctx.set("traces_validated_against_impl", json!(stats.transitions + q));
